@@ -31,23 +31,50 @@ EXTENDS Rational, Sequences, FiniteSets, TLC, Json
 (* ------------------------------------------------------------------------ *)
 (* atoms                                                                     *)
 (* ------------------------------------------------------------------------ *)
-NA == 15
+NA == 28
+NG == 4
 NP == 4
 Primes == <<2, 3, 5, 127>>
 PBits == <<1, 2, 3, 7>>          \* ceil(log2 p)
-AtomName == <<"xla", "xlb", "xlc", "xta", "xtb", "xnq", "km", "cm", "ft", "min", "percent",
-              "degree", "arcmin", "xst", "radian">>
-\* dimension group: 1 length, 2 time, 3 angle, 0 dimensionless
-AtomGrp == <<1, 1, 1, 2, 2, 0, 1, 1, 1, 2, 0, 3, 3, 3, 3>>
-\* scale = prod Primes[p]^AtomPV[i][p].  la/lb/lc/ta/tb/nq live in a custom registry with
-\* power-of-two scales (float arithmetic is exact; names chosen so that unyt does not resolve them by itself).  Angles are measured in degrees in the
-\* model; "st" is a custom unit of 15 degrees; a number in radian is carried in the model
-\* as a multiple of pi/12 (the harness multiplies/divides by (pi/12)^exponent-of-radian).
-AtomPV == << <<0, 0, 0, 0>>, <<5, 0, 0, 0>>, <<-3, 0, 0, 0>>, <<0, 0, 0, 0>>, <<4, 0, 0, 0>>, <<-2, 0, 0, 0>>,
-             <<3, 0, 3, 0>>, <<-2, 0, -2, 0>>, <<-1, 1, -4, 1>>, <<2, 1, 1, 0>>, <<-2, 0, -2, 0>>,
-             <<0, 0, 0, 0>>, <<-2, -1, -1, 0>>, <<0, 1, 1, 0>>, <<0, 1, 1, 0>> >>
-AtomDyadic == <<TRUE, TRUE, TRUE, TRUE, TRUE, TRUE, FALSE, FALSE, FALSE, FALSE, FALSE,
-                FALSE, FALSE, FALSE, FALSE>>
+AtomName == <<"xla", "xlb", "xlc", "xta", "xtb", "xnq", "km", "cm", "ft", "min", "percent", "degree", "arcmin", "xst", "radian", "xls", "xlt", "xlh", "xli", "fm", "pm", "fs", "ps", "Zm", "Ym", "eV", "keV", "MeV">>
+\* dimension group: 1 length, 2 time, 3 angle, 4 energy, 0 dimensionless
+AtomGrp == <<1, 1, 1, 2, 2, 0, 1, 1, 1, 2, 0, 3, 3, 3, 3, 1, 1, 1, 1, 1, 1, 2, 2, 1, 1, 4, 4, 4>>
+\* scale = prod Primes[p]^AtomPV[i][p].  The x.. atoms live in a custom registry with power-of-two scales (float
+\* arithmetic is exact; names chosen so that unyt does not resolve them by itself).  Angles are measured in degrees in
+\* the model; xst is a custom unit of 15 degrees; a number in radian is carried in the model as a multiple of pi/12 (the
+\* harness multiplies/divides by (pi/12)^exponent-of-radian).
+\* Magnitude classes: xls/xlt (2^-60, 2^-55) and fm/pm, fs/ps have SI scales far below 1e-12; xlh/xli (2^70, 2^75) and
+\* Zm/Ym far above 1e20; eV/keV/MeV (energy, ~1e-19..1e-13 J) are carried RELATIVE to eV - only ratios of commensurable
+\* scales ever enter the predicates, and no other atom of the alphabet is commensurable with a monomial holding an energy.
+AtomPV == << <<0, 0, 0, 0>>,
+             <<5, 0, 0, 0>>,
+             <<-3, 0, 0, 0>>,
+             <<0, 0, 0, 0>>,
+             <<4, 0, 0, 0>>,
+             <<-2, 0, 0, 0>>,
+             <<3, 0, 3, 0>>,
+             <<-2, 0, -2, 0>>,
+             <<-1, 1, -4, 1>>,
+             <<2, 1, 1, 0>>,
+             <<-2, 0, -2, 0>>,
+             <<0, 0, 0, 0>>,
+             <<-2, -1, -1, 0>>,
+             <<0, 1, 1, 0>>,
+             <<0, 1, 1, 0>>,
+             <<-60, 0, 0, 0>>,
+             <<-55, 0, 0, 0>>,
+             <<70, 0, 0, 0>>,
+             <<75, 0, 0, 0>>,
+             <<-15, 0, -15, 0>>,
+             <<-12, 0, -12, 0>>,
+             <<-15, 0, -15, 0>>,
+             <<-12, 0, -12, 0>>,
+             <<21, 0, 21, 0>>,
+             <<24, 0, 24, 0>>,
+             <<0, 0, 0, 0>>,
+             <<3, 0, 3, 0>>,
+             <<6, 0, 6, 0>> >>
+AtomDyadic == <<TRUE, TRUE, TRUE, TRUE, TRUE, TRUE, FALSE, FALSE, FALSE, FALSE, FALSE, FALSE, FALSE, FALSE, FALSE, TRUE, TRUE, TRUE, TRUE, FALSE, FALSE, FALSE, FALSE, FALSE, FALSE, FALSE, FALSE, FALSE>>
 StAtom == 14
 
 (* a unit = exponents x6 over the atoms (x6 keeps 1/2 and 1/3 integral) *)
@@ -63,14 +90,16 @@ RECURSIVE SumF(_, _)
 SumF(f, n) == IF n = 0 THEN 0 ELSE f[n] + SumF(f, n - 1)
 IAbs(x) == IF x < 0 THEN -x ELSE x
 \* scale of a unit: prime exponents x6
-\* (unrolled from AtomPV / AtomGrp for speed; ASSUME below checks the unrolling)
-SV(u) == <<5 * u[2] + (-3) * u[3] + 4 * u[5] + (-2) * u[6] + 3 * u[7] + (-2) * u[8] + (-1) * u[9] + 2 * u[10] + (-2) * u[11] + (-2) * u[13], u[9] + u[10] + (-1) * u[13] + u[14] + u[15], 3 * u[7] + (-2) * u[8] + (-4) * u[9] + u[10] + (-2) * u[11] + (-1) * u[13] + u[14] + u[15], u[9]>>
-\* dimension of a unit: exponents x6 of <<length, time, angle>>
-DV(u) == <<u[1] + u[2] + u[3] + u[7] + u[8] + u[9], u[4] + u[5] + u[10], u[12] + u[13] + u[14] + u[15]>>
+\* (unrolled from AtomPV / AtomGrp for speed, as balanced sums to keep TLC's evaluation stack shallow; ASSUME below checks it)
+SV(u) == <<((((5 * u[2] + (-3) * u[3]) + (4 * u[5] + ((-2) * u[6] + 3 * u[7]))) + (((-2) * u[8] + ((-1) * u[9] + 2 * u[10])) + ((-2) * u[11] + ((-2) * u[13] + (-60) * u[16])))) + ((((-55) * u[17] + 70 * u[18]) + (75 * u[19] + ((-15) * u[20] + (-12) * u[21]))) + (((-15) * u[22] + ((-12) * u[23] + 21 * u[24])) + (24 * u[25] + (3 * u[27] + 6 * u[28]))))), ((u[9] + u[10]) + ((-1) * u[13] + (u[14] + u[15]))), ((((3 * u[7] + (-2) * u[8]) + ((-4) * u[9] + u[10])) + (((-2) * u[11] + (-1) * u[13]) + (u[14] + u[15]))) + ((((-15) * u[20] + (-12) * u[21]) + ((-15) * u[22] + (-12) * u[23])) + ((21 * u[24] + 24 * u[25]) + (3 * u[27] + 6 * u[28])))), u[9]>>
+\* dimension of a unit: exponents x6 of <<length, time, angle, energy>>
+DV(u) == <<(((u[1] + (u[2] + u[3])) + ((u[7] + u[8]) + (u[9] + u[16]))) + ((u[17] + (u[18] + u[19])) + ((u[20] + u[21]) + (u[24] + u[25])))), ((u[4] + u[5]) + (u[10] + (u[22] + u[23]))), ((u[12] + u[13]) + (u[14] + u[15])), (u[26] + (u[27] + u[28]))>>
 SVdef(u) == [p \in 1..NP |-> SumF([i \in 1..NA |-> u[i] * AtomPV[i][p]], NA)]
-DVdef(u) == [g \in 1..3 |-> SumF([i \in 1..NA |-> IF AtomGrp[i] = g THEN u[i] ELSE 0], NA)]
+DVdef(u) == [g \in 1..NG |-> SumF([i \in 1..NA |-> IF AtomGrp[i] = g THEN u[i] ELSE 0], NA)]
 ASSUME \A i \in 1..NA : SV(UAtom(i)) = SVdef(UAtom(i)) /\ DV(UAtom(i)) = DVdef(UAtom(i))
-DZero3 == <<0, 0, 0>>
+
+DZero3 == <<0, 0, 0, 0>>     \* (the name predates the energy group)
+DAngle1 == <<0, 0, 6, 0>>
 VAdd(a, b) == [p \in DOMAIN a |-> a[p] + b[p]]
 VSub(a, b) == [p \in DOMAIN a |-> a[p] - b[p]]
 VScale(a, n) == [p \in DOMAIN a |-> a[p] * n]
@@ -266,7 +295,7 @@ RefVals(op, meth, A, B, p, ur) ==
 \* is the step inside the claim?  (commensurable operands where the mathematics needs them)
 InClaim(op, meth, A, B) ==
   /\ op \in HomBin \cup CmpBin \cup DivMod \cup {"floor_divide"} => (B.k # "x" /\ SameDim(A, B))
-  /\ op \in Trig => DV(A.u) = <<0, 0, 6>>
+  /\ op \in Trig => DV(A.u) = DAngle1
 
 \* a number in radian is carried as a multiple of pi/12: an operation that floors RAW numbers of operands in different
 \* units (what the transcription of floor_divide / divmod does) cannot be followed through that change of variable
@@ -315,7 +344,7 @@ PVerdict(op, meth, A, B, p, Rs) ==
 GrpNet(u, g) == DV(u)[g]
 GrpCount(u, g) == SumF([i \in 1..NA |-> IF AtomGrp[i] = g THEN IAbs(u[i]) ELSE 0], NA)
 ValidCancel(uin, ur) ==
-  /\ \A g \in 1..3 : LET net == GrpNet(uin, g) IN
+  /\ \A g \in 1..NG : LET net == GrpNet(uin, g) IN
         /\ GrpNet(ur, g) = net
         /\ \A i \in 1..NA : AtomGrp[i] = g =>
              IF net > 0 THEN ur[i] >= 0 /\ ur[i] <= (IF uin[i] > 0 THEN uin[i] ELSE 0)
@@ -336,12 +365,13 @@ FirstDimless(u) == CHOOSE i \in 1..NA : AtomGrp[i] = 0 /\ u[i] # 0 /\ \A j \in 1
 Cancel(u) ==
   LET a1 == KeepGrp(u, 1, 1, GrpNet(u, 1), UOne)
       a2 == KeepGrp(u, 2, 1, GrpNet(u, 2), a1)
-      a3 == KeepGrp(u, 3, 1, GrpNet(u, 3), a2) IN
+      a3x == KeepGrp(u, 3, 1, GrpNet(u, 3), a2)
+      a3 == KeepGrp(u, 4, 1, GrpNet(u, 4), a3x) IN
   IF (GrpCount(u, 0) \div 6) % 2 = 1
   THEN LET i == FirstDimless(u) IN [a3 EXCEPT ![i] = IF u[i] > 0 THEN 6 ELSE -6]
   ELSE a3
 \* groups in which something can cancel
-Cancellable(u) == (\E g \in 1..3 : GrpCount(u, g) # IAbs(GrpNet(u, g))) \/ GrpCount(u, 0) >= 12
+Cancellable(u) == (\E g \in 1..NG : GrpCount(u, g) # IAbs(GrpNet(u, g))) \/ GrpCount(u, 0) >= 12
 \* array.py:1977-1984 : a dimensionless result with scale != 1 of commensurable dimensioned operands is
 \* multiplied out and relabelled dimensionless
 Step6(u0, u1, u) == DV(u) = DZero3 /\ DV(u0) # DZero3 /\ DV(u0) = DV(u1) /\ SV(u) # <<0, 0, 0, 0>>
